@@ -75,12 +75,54 @@ fn my_cone(ctx: &Context, sys: &TransitionSystem, root: ExprRef, follow_init: bo
     out
 }
 
+/// calls of the subject that are in flight: (what, since); a watchdog thread reports a call that runs away
+/// (these analyses finish in microseconds on systems of this size; one that spins allocates without bound)
+static IN_FLIGHT: std::sync::Mutex<Vec<(u64, String, std::time::Instant)>> = std::sync::Mutex::new(Vec::new());
+thread_local! {
+    /// JSON of the system the current thread is checking (for the replay file of a runaway)
+    static CURRENT_SPEC: std::cell::RefCell<String> = const { std::cell::RefCell::new(String::new()) };
+}
+static CALL_ID: AtomicU64 = AtomicU64::new(0);
+
 fn real_cone(ctx: &Context, sys: &TransitionSystem, root: ExprRef, variant: usize) -> Result<Vec<ExprRef>, PanicInfo> {
-    catch(|| match variant {
+    let id = CALL_ID.fetch_add(1, Ordering::Relaxed);
+    let spec_json = CURRENT_SPEC.with(|c| c.borrow().clone());
+    IN_FLIGHT.lock().unwrap().push((id, format!("{} cone of `{}`\u{1}{spec_json}", VARIANTS[variant], show_expr(ctx, root)), std::time::Instant::now()));
+    let r = catch(|| match variant {
         0 => cone_of_influence(ctx, sys, root),
         1 => cone_of_influence_init(ctx, sys, root),
         _ => cone_of_influence_comb(ctx, sys, root),
-    })
+    });
+    IN_FLIGHT.lock().unwrap().retain(|c| c.0 != id);
+    r
+}
+
+fn rss_bytes() -> u64 {
+    std::fs::read_to_string("/proc/self/statm").ok().and_then(|s| s.split_whitespace().nth(1).and_then(|p| p.parse::<u64>().ok())).map(|p| p * 4096).unwrap_or(0)
+}
+
+/// a cone call that has been running for 20 s, or during which the process has grown beyond 6 GiB, is a runaway:
+/// record it, write the evidence and exit (the thread cannot be stopped)
+fn runaway_watchdog(rep: &Report, done: &AtomicBool) {
+    while !done.load(Ordering::Relaxed) {
+        std::thread::sleep(std::time::Duration::from_millis(50));
+        let oldest = IN_FLIGHT.lock().unwrap().iter().min_by_key(|c| c.2).cloned();
+        let Some((_, what, since)) = oldest else { continue };
+        let (what, spec_json) = what.split_once('\u{1}').map(|(a, b)| (a.to_string(), b.to_string())).unwrap_or((what.clone(), String::new()));
+        let secs = since.elapsed().as_secs_f64();
+        let rss = rss_bytes();
+        if secs > 20.0 || (secs > 0.5 && rss > (6u64 << 30)) {
+            rep.violation(Violation {
+                sig: "C17|runaway|-|-|-".into(),
+                what: format!("the {what} has been running for {secs:.1} s and the process has grown to {} MiB: the analysis does not terminate (or allocates without bound)", rss >> 20),
+                case: json!({"runaway": what, "system": serde_json::from_str::<Value>(&spec_json).unwrap_or(Value::Null), "horizon": HORIZON_QUICK}),
+                order: 0,
+            });
+            rep.cap_hit("a cone-of-influence call ran away: the sweep was abandoned");
+            let code = rep.finish();
+            std::process::exit(code);
+        }
+    }
 }
 
 /// all values of every node under every valuation of states and inputs, plus next-state digits
@@ -268,6 +310,7 @@ pub fn check_system(spec: &SysSpec, horizon: usize) -> (Vec<Fail>, Info) {
             fails.push(f);
         }
     }
+    CURRENT_SPEC.with(|c| *c.borrow_mut() = spec.to_json().to_string());
     let mut ctx = Context::default();
     let built = spec.build(&mut ctx);
     let sys = built.sys;
@@ -476,7 +519,9 @@ pub fn meta(rep: &mut Report) {
 
 fn report(spec: &SysSpec, horizon: usize, f: &Fail, order: u64, rep: &Report) {
     let (class, variant) = (f.class.clone(), f.variant);
-    let min = shrink_spec(spec, &|s| check_system(s, horizon).0.iter().any(|g| g.class == class && g.variant == variant));
+    // every evaluation of the predicate tabulates the whole valuation space of the candidate: large hand-built
+    // systems (8-bit registers) are reported as they are
+    let min = if spec.state_bits() + spec.input_bits() > 12 { spec.clone() } else { shrink_spec(spec, &|s| check_system(s, horizon).0.iter().any(|g| g.class == class && g.variant == variant)) };
     let f2 = check_system(&min, horizon).0.into_iter().find(|g| g.class == class && g.variant == variant).unwrap_or_else(|| f.clone());
     let sig = format!("C17|{}|{}|{}|{}", f2.class, f2.variant, wclass(f2.width.max(1)), f2.shape);
     rep.violation(Violation { sig, what: format!("[{}] {}", sys_class(spec), f2.what), case: json!({"system": min.to_json(), "horizon": horizon, "found_in": spec.to_json()}), order });
@@ -492,6 +537,9 @@ pub fn run(opts: &Opts, rep: &Report) {
     let capped = AtomicBool::new(false);
     let skipped = AtomicU64::new(0);
     let failing: Collector<(SysSpec, Fail)> = Collector::default();
+    let done = AtomicBool::new(false);
+    std::thread::scope(|sc| {
+    sc.spawn(|| runaway_watchdog(rep, &done));
     specs.par_iter().enumerate().for_each(|(idx, spec)| {
         if budget.exceeded() {
             capped.store(true, Ordering::Relaxed);
@@ -529,7 +577,12 @@ pub fn run(opts: &Opts, rep: &Report) {
         }
     });
     let failing = failing.drain();
-    failing.par_iter().for_each(|(order, (spec, f))| report(spec, horizon, f, *order, rep));
+    // one at a time: a report re-tabulates its system many times while shrinking
+    for (order, (spec, f)) in failing.iter() {
+        report(spec, horizon, f, *order, rep);
+    }
+    done.store(true, Ordering::Relaxed);
+    });
     if capped.load(Ordering::Relaxed) {
         rep.cap_hit(&format!("wall budget {}s: {} systems not checked", opts.budget_s, skipped.load(Ordering::Relaxed)));
     }
@@ -545,7 +598,12 @@ pub fn run(opts: &Opts, rep: &Report) {
 pub fn replay(case: &Value, rep: &Report) {
     let spec = SysSpec::from_json(&case["system"]).expect("system");
     let horizon = case["horizon"].as_u64().unwrap_or(HORIZON_QUICK as u64) as usize;
-    for f in check_system(&spec, horizon).0 {
-        report(&spec, horizon, &f, 0, rep);
-    }
+    let done = AtomicBool::new(false);
+    std::thread::scope(|sc| {
+        sc.spawn(|| runaway_watchdog(rep, &done));
+        for f in check_system(&spec, horizon).0 {
+            report(&spec, horizon, &f, 0, rep);
+        }
+        done.store(true, Ordering::Relaxed);
+    });
 }
